@@ -149,7 +149,19 @@ class FakeControl(object):
                 self.listener_errors.append(e)
 
 
-def _run(order, with_timeout):
+class FakeConfig(object):
+    """a TorConfig that is not attached yet; attaching takes several round trips (never completes in the harness)"""
+    protocol = None
+
+    def __init__(self):
+        self.attach_calls = 0
+
+    def attach_protocol(self, proto):
+        self.attach_calls += 1
+        return defer.Deferred()
+
+
+def _run(order, with_timeout, with_config=False):
     clock = task.Clock()
     ctl = FakeControl()
     attempts = []
@@ -158,7 +170,7 @@ def _run(order, with_timeout):
         d = defer.Deferred()
         attempts.append(d)
         return d
-    pp = TorProcessProtocol(creator, None, None, clock if with_timeout else None, 30 if with_timeout else None, True, None, None)
+    pp = TorProcessProtocol(creator, None, FakeConfig() if with_config else None, clock if with_timeout else None, 30 if with_timeout else None, True, None, None)
     tr = FakeProcessTransport()
     pp.makeConnection(tr)
     first = fakes.Outcome(pp.when_connected())
@@ -262,7 +274,7 @@ def _seqs(key):
     return _SEQ[key]
 
 
-def _cond_body(k, pre, part, ia, ib, with_timeout):
+def _cond_body(k, pre, part, ia, ib, with_timeout, with_config=False):
     seqs = _seqs((k, pre))
     ch = (len(seqs) + _NP - 1) // _NP
     lo = part * ch
@@ -274,7 +286,7 @@ def _cond_body(k, pre, part, ia, ib, with_timeout):
     idx = lo + 40 * ia + ib
     assume(idx <= hi)
     with api.no_tracing():
-        return _run(seqs[idx], True if with_timeout else False)
+        return _run(seqs[idx], True if with_timeout else False, True if with_config else False)
 
 
 @cond(quick=dict(parts=[{'part': i, 'k': 5} for i in range(_NP)], budget=150), thorough=dict(parts=[{'part': i, 'k': 6} for i in range(_NP)], budget=1500))
@@ -284,9 +296,10 @@ def c19_from_start(ia: int, ib: int, with_timeout: bool, part: int, k: int) -> s
 
 
 @cond(quick=dict(parts=[{'part': i, 'k': 4} for i in range(_NP)], budget=150), thorough=dict(parts=[{'part': i, 'k': 5} for i in range(_NP)], budget=1500))
-def c19_after_bootstrap(ia: int, ib: int, with_timeout: bool, part: int, k: int) -> str:
-    """every causally possible sequence of k events after {listener line, connected, bootstrapped, SETEVENTS acknowledged}"""
-    return _cond_body(k, True, part, ia, ib, with_timeout)
+def c19_after_bootstrap(ia: int, ib: int, with_timeout: bool, with_config: bool, part: int, k: int) -> str:
+    """every causally possible sequence of k events after {listener line, connected, bootstrapped, SETEVENTS acknowledged};
+    with_config: a not-yet-attached TorConfig is passed, whose attach_protocol() stays outstanding"""
+    return _cond_body(k, True, part, ia, ib, with_timeout, with_config)
 
 
 # ------------------------------------------------------------------ temporary directory (real launch())
@@ -360,7 +373,7 @@ class _OsProxy(object):
         return getattr(self._real, k)
 
 
-def _tempdir(user_dir, exit_kind, fire_shutdown, mkdir_ok=False):
+def _tempdir(user_dir, exit_kind, fire_shutdown, mkdir_ok=False, timeout_first=False):
     import os as _os
     deleted = []
     made = []
@@ -372,7 +385,7 @@ def _tempdir(user_dir, exit_kind, fire_shutdown, mkdir_ok=False):
     ddir = '/nonexistent-parent/userdata' if user_dir else None
     try:
         d = controller.launch(reactor, tor_binary='/usr/bin/tor', data_directory=ddir, connection_creator=lambda: defer.Deferred(),
-                              timeout=None)
+                              timeout=30 if timeout_first else None)
         o = fakes.Outcome(d)
         if len(reactor.spawned) != 1:
             return R('tor-not-spawned-once', '%r', o.exc())
@@ -381,6 +394,10 @@ def _tempdir(user_dir, exit_kind, fire_shutdown, mkdir_ok=False):
             return R('temporary-directory-created-although-caller-supplied-one')
         if not user_dir and len(made) != 1:
             return R('no-temporary-directory-created')
+        if timeout_first:
+            reactor.clock.advance(31)
+            if o.err != 1:
+                return R('launch-not-failed-by-the-timeout')
         if exit_kind == 0:
             pp.processEnded(Failure(error.ProcessDone(0)))
         else:
@@ -404,9 +421,10 @@ def _tempdir(user_dir, exit_kind, fire_shutdown, mkdir_ok=False):
 
 
 @cond(quick=dict(budget=60))
-def c19_tempdir(user_dir: bool, exit_kind: int, fire_shutdown: bool, mkdir_ok: bool) -> str:
+def c19_tempdir(user_dir: bool, exit_kind: int, fire_shutdown: bool, mkdir_ok: bool, timeout_first: bool) -> str:
     """real launch() with doubles for the reactor and the file system: temp dir removed at process end, caller's never
     (whether or not the caller's directory existed before: mkdir_ok = launch() could create it)"""
     exit_kind = api.pick(exit_kind, 0, 1)
     with api.no_tracing():
-        return _tempdir(True if user_dir else False, exit_kind, True if fire_shutdown else False, True if mkdir_ok else False)
+        return _tempdir(True if user_dir else False, exit_kind, True if fire_shutdown else False, True if mkdir_ok else False,
+                        True if timeout_first else False)
